@@ -68,8 +68,8 @@ struct cmb_resourcepool *cmb_resourcepool_create(void)
 
 /*
  * holder_queue_check - Test if heap_tag *a should go before *b. If so, return
- * true. Ranking lower priority (dsortkey) before higher, then LIFO based on handle
- * value. Used to identify the most likely victim for resource preemption, hence
+ * true. Ranking lower priority (dsortkey) before higher, then LIFO based on
+ * arrival number. Used to identify the most likely victim for resource preemption, hence
  * opposite order of the waiting room.
  */
 static bool holder_queue_check(const struct cmi_heap_tag *a,
@@ -83,7 +83,8 @@ static bool holder_queue_check(const struct cmi_heap_tag *a,
         ret = true;
     }
     else if (a->isortkey == b->isortkey) {
-        if (a->key > b->key) {
+        /* Last in first, by the arrival number in item[3] */
+        if ((uintptr_t)(a->item[3]) > (uintptr_t)(b->item[3])) {
             ret = true;
         }
     }
@@ -356,10 +357,14 @@ static void update_record(struct cmb_resourcepool *rpp,
         hp->res = (struct cmi_holdable *)rpp;
         cmi_slist_push(&(pp->resources), &(hp->listhead));
 
-        /* Not held already, create a new resource pool holder entry for the process */
+        /*
+         * Not held already, create a new resource pool holder entry for the
+         * process, with its arrival number as tie-breaker among equal priorities
+         */
+        const uintptr_t arrival = (uintptr_t)(hhp->item_counter + 1u);
         const uint64_t new_key = cmi_hashheap_enqueue(hhp,
                                                      (void *)pp, (void *)amount,
-                                                     NULL, NULL,
+                                                     NULL, (void *)arrival,
                                                      key, 0.0, pp->priority);
         cmb_assert_debug(new_key == key);
     }
